@@ -24,7 +24,7 @@ TRUSTED_BASE = [
 class Stream:
     def __init__(self, name, stream, gen, args=(), flavours=("rel",), spec=None, spec_args=None, nontrivial=None,
                  L=None, search_gen=None, timeout=300, model_args=None, exhaustive=False, rule="", env=None, expect=None, model_case=None, tiers=None, stateless=False,
-                 canon=None):
+                 canon=None, per_job=None):
         self.name, self.stream, self.gen, self.args = name, stream, gen, list(args)
         self.flavours, self.spec, self.spec_args = flavours, spec, spec_args
         self.nontrivial = nontrivial or (lambda case, line: True)
@@ -36,6 +36,7 @@ class Stream:
         self.expect = expect          # python function case -> expected line (instead of the extracted model)
         self.model_case = model_case  # transform of the case before it is handed to the model
         self.tiers = tiers            # None = every tier
+        self.per_job = per_job        # heavy cases: this many per driver / harness process (see corr.run_stream)
         self.stateless = stateless    # the function under test keeps no state between calls: the cases are also run in
                                       # two seeded random orders within one process and must give the same lines
         self.canon = canon            # optional line -> line map applied to BOTH sides before comparing (e.g. "the assert-enabled
@@ -117,7 +118,7 @@ def run_one_stream(ctx, s, cases, model_stream=None, flavours=None):
         model_lines = [s.expect(c) for c in cases]
     else:
         mcases = [s.model_case(c) for c in cases] if s.model_case else cases
-        model_lines = corr.run_stream(corr.model_cmd(model_stream or s.model_stream or s.stream, margs), mcases, timeout=s.timeout)
+        model_lines = corr.run_stream(corr.model_cmd(model_stream or s.model_stream or s.stream, margs), mcases, timeout=s.timeout, per_job=s.per_job)
     if s.canon:
         model_lines = [s.canon(l) for l in model_lines]
     dis, impl_by = [], {}
@@ -132,7 +133,7 @@ def run_one_stream(ctx, s, cases, model_stream=None, flavours=None):
         ctx.dropped[s.name] = dropped
     for fl in (flavours or s.flavours):
         hx = ctx.hx(fl, s.L)
-        sub = corr.run_stream([hx, s.stream] + [str(a) for a in s.args], [cases[i] for i in keep], timeout=s.timeout, env=s.env)
+        sub = corr.run_stream([hx, s.stream] + [str(a) for a in s.args], [cases[i] for i in keep], timeout=s.timeout, env=s.env, per_job=s.per_job)
         if s.canon:
             sub = [s.canon(l) for l in sub]
         impl = list(model_lines)
@@ -149,7 +150,7 @@ def run_one_stream(ctx, s, cases, model_stream=None, flavours=None):
         for k in ((1, 2) if len(keep) <= 60000 else (1,)):
             order = list(keep)
             random.Random(ctx.seed * 7919 + k).shuffle(order)
-            sub = corr.run_stream([hx, s.stream] + [str(a) for a in s.args], [cases[i] for i in order], timeout=s.timeout, env=s.env)
+            sub = corr.run_stream([hx, s.stream] + [str(a) for a in s.args], [cases[i] for i in order], timeout=s.timeout, env=s.env, per_job=s.per_job)
             for j, i in enumerate(order):
                 got = sub[j] if j < len(sub) else "MISSING"
                 if corr.compare([cases[i]], [got], [model_lines[i]]):
@@ -172,7 +173,16 @@ def run_property(prop, tier, seed, replay=None):
             try:
                 ensure_driver()
                 hx_rel = ctx.hx("rel")
-                sizes = {k: v for k, v in hx_config(hx_rel).items() if k.startswith("sizeof_")}
+                hxc = hx_config(hx_rel)
+                sizes = {k: v for k, v in hxc.items() if k.startswith("sizeof_")}
+                # version constants (common.h statics, CBOR_VERSION, CBOR_HEX_VERSION) against each other and against CMakeLists.txt
+                try:
+                    cm = open(os.path.join(build.REPO, "CMakeLists.txt")).read()
+                    want = ".".join(re.search(r'set\(CBOR_VERSION_%s\s+"(\d+)"\)' % k, cm).group(1) for k in ("MAJOR", "MINOR", "PATCH"))
+                except Exception:
+                    want = None
+                notes.append("library version %s (header constants consistent: %s; CMakeLists.txt: %s)" %
+                             (hxc.get("version"), "yes" if hxc.get("version_ok") == "1" else "NO", "same" if want == hxc.get("version") else "DIFFERENT (%s)" % want))
                 from translator import run as trun
                 trep = trun.regenerate(ctx.cfg(), sizes)
                 notes += trep["unsupported"]
@@ -191,8 +201,10 @@ def run_property(prop, tier, seed, replay=None):
             if coq["bad_axioms"]:
                 broken += ["axiom outside the allow-list: " + a for a in coq["bad_axioms"]]
             if tier == "thorough" and not broken:
+                t_chk = time.time()
                 ck = coqchk(prop.coq)
                 cov["coqchk"] = ck["summary"]
+                cov["coqchk_wall_s"] = round(time.time() - t_chk, 1)
                 if not ck["ok"]:
                     broken.append("coqchk: " + ck["summary"])
             # ---- correspondence
@@ -202,6 +214,7 @@ def run_property(prop, tier, seed, replay=None):
             for s in prop.streams:
                 if s.tiers is not None and ctx.tier not in s.tiers:
                     continue
+                t_stream = time.time()
                 cases = s.gen(ctx)
                 seen = set(); cases = [c for c in cases if not (c in seen or seen.add(c))]
                 if replay and replay.get("stream") == s.name:
@@ -222,6 +235,10 @@ def run_property(prop, tier, seed, replay=None):
                                           "exhaustive": s.exhaustive, "rule": s.rule}
                 if s.stateless:
                     cov["streams"][s.name]["order_independence"] = "the cases were also run in seeded random order(s) within one process (first flavour) and every line compared with the model's again"
+                inconclusive = sum(1 for ml in model_lines if ml in ("STACKOVERFLOW", "HANG"))
+                if inconclusive:
+                    cov["streams"][s.name]["model_inconclusive_stack_or_time"] = inconclusive
+                cov["streams"][s.name]["wall_s"] = round(time.time() - t_stream, 1)
                 if ctx.dropped.get(s.name):
                     cov["streams"][s.name]["cases_illegal_under_a_refusal_schedule_not_run"] = ctx.dropped[s.name]
                 k = min(3, len(cases))
